@@ -105,6 +105,8 @@ structure SearchHdr where
   lineDst : Nat
   found : Bool
   path : List Nat
+  /-- `sisolated`: (the source is `lineRef->src()` and has no enabled edge, the target is `lineRef->dst()` and has no edge) -/
+  iso : Option (Bool × Bool) := none
   deriving Inhabited
 
 /-- events of a transaction in the order they happened (harness/c11_search.h) -/
@@ -119,6 +121,8 @@ structure SearchRes where
   conn : Nat
   libFound : Bool
   modelRoute : Option (List P2)     -- `none`: the model finds no path either
+  /-- the search failed at once because a dummy end vertex had no pin edge, but the model's pin state offers pins of the class -/
+  modelOffers : Option String := none
   deriving Inhabited
 
 structure St where
@@ -409,6 +413,11 @@ def checkLegDirections (s : St) : St := Id.run do
 
 /-! ### the A* search of pin-attached / checkpoint connectors (Model/AStarPins.lean) against the real one -/
 
+def showEnd : EndK → String
+  | .pin sh cls => s!"(shape {sh}, class {cls})"
+  | .junc j => s!"junction {j}"
+  | .free p => s!"point {showP p}"
+
 def toPt (p : P2) : AdaptaVerif.Model.Geometry.Pt := ⟨p.x, p.y⟩
 def ofPt (p : AdaptaVerif.Model.Geometry.Pt) : P2 := ⟨p.x, p.y⟩
 
@@ -441,7 +450,8 @@ def checkSearches (s : St) : St := Id.run do
       for j in [i+1:s.sev.size] do
         match s.sev[j]! with
         | .search h _ => ms := step ms (.release h.conn)
-        | _ => pure ()
+        | .routed c _ => ms := step ms (.release c)      -- polyline connectors are re-routed too (no search event)
+        | .cross => pure ()
     | .routed c r =>
       match s.conns.find? (·.id == c) with
       | none => pure ()
@@ -459,10 +469,43 @@ def checkSearches (s : St) : St := Id.run do
       lastHdr := (h.conn, h) :: lastHdr.filter (·.1 != h.conn)
       s := bump s "search.total"
       if !h.found then s := bump s "search.failed"
+      -- the pins `assignPinVisibilityTo` offers the two dummy end vertices, by the model's pin state
+      let offered (e : EndK) : Option (List P2) := match e with
+        | .pin sh cls => some ((AdaptaVerif.Model.AStarPins.offeredPins ms sh cls).filterMap (fun p => (s.cur.pins.find? (·.id == p.id)).map (·.pos)))
+        | _ => none
+      let sortPts (l : List P2) : List P2 := (l.toArray.qsort (fun a b => a.x < b.x || (a.x == b.x && a.y < b.y))).toList
+      match h.iso, s.conns.find? (·.id == h.conn) with
+      | some (isoSrc, isoDst), some cr =>
+        -- the search failed before it started; the model agrees unless its pin state offers a pin to the end without edges
+        let why : Option String :=
+          if inCross then none else     -- crossing stage: the model's pin state is not exact (see below)
+          match (if isoSrc then offered cr.src else none), (if isoDst then offered cr.dst else none) with
+          | some (p :: ps), _ => some s!"the source end {showEnd cr.src} was given no edge to a pin, the model's pin state offers the pins at {(p :: ps).map showP}"
+          | _, some (p :: ps) => some s!"the destination end {showEnd cr.dst} was given no edge to a pin, the model's pin state offers the pins at {(p :: ps).map showP}"
+          | _, _ => none
+        if let some w := why then
+          s := bump s "search.isolated-end.model-offers-pins"
+          s := { s with divs := s!"step {s.stepNo}: connector {h.conn}: {w}" :: s.divs }
+        s := { s with sres := s.sres ++ [⟨h.conn, false, none, why⟩] }
+      | _, _ => pure ()
       match og, s.conns.find? (·.id == h.conn) with
       | some g0, some cr =>
+        for (e, v, what) in [(cr.src, h.lineSrc, "source"), (cr.dst, h.lineDst, "destination")] do
+          match (if inCross then none else offered e) with
+          | some ps =>
+            let lib := sortPts (((g0.edges v).filter (fun ed => g0.isPin ed.to)).map (fun ed => ofPt (g0.pt ed.to)))
+            s := bump s "search.offered-pins.compared"
+            if lib != sortPts ps then
+              s := { s with divs := s!"step {s.stepNo}: connector {h.conn}: the dummy {what} vertex has edges to the pins at {lib.map showP}, the model's pin state offers {(sortPts ps).map showP} (assignPinVisibilityTo: class matches and (not exclusive or no user))" :: s.divs }
+          | none => pure ()
+        -- Crossing stage: the router frees and re-routes the connectors group by group (improveCrossings), and the groups
+        -- are not observable, so the model's pin state is not exact there.  The end-point list is then taken from the
+        -- pins the library offered the dummy destination vertex in this very graph — by
+        -- Props.C11Search.offered_pin_is_end_point / end_point_is_offered_pin the two lists coincide.
         let endPts : List AdaptaVerif.Model.Geometry.Pt := match cr.dst with
-          | .pin sh cls => AdaptaVerif.Model.AStarPins.possiblePinPoints ms posOf sh cls
+          | .pin sh cls =>
+            if inCross then ((g0.edges h.lineDst).filter (fun ed => g0.isPin ed.to)).map (fun ed => g0.pt ed.to)
+            else AdaptaVerif.Model.AStarPins.possiblePinPoints ms posOf sh cls
           | .junc j => ((s.cur.juncs.find? (·.id == j)).map (fun jo => [toPt jo.pos])).getD []
           | .free _ => []
         let g := { g0 with endPts := endPts }
@@ -473,9 +516,13 @@ def checkSearches (s : St) : St := Id.run do
         if h.prevOfStart.isSome then s := bump s "search.modelled.later-leg"
         let mr := g.route
         let showR (r : List Nat) : String := toString ((r.map g.pt).map (fun p => showP (ofPt p)))
-        s := { s with sres := s.sres ++ [⟨h.conn, h.found, mr.map (fun r => r.map (fun v => ofPt (g.pt v)))⟩] }
+        s := { s with sres := s.sres ++ [⟨h.conn, h.found, mr.map (fun r => r.map (fun v => ofPt (g.pt v))), none⟩] }
         match h.found, mr with
-        | false, none => s := bump s "search.nopath-both"
+        | false, none =>
+          s := bump s "search.nopath-both"
+          -- why the search as coded fails: with the turn pruning switched off the same loop finds a route (the
+          -- "optimisation" loses the path, cf. Props.C05AStar.pruning_loses_optimum_*), or the graph itself has none
+          s := bump s (if ({ g with prune := false }).route.isSome then "search.nopath-both.route-exists-without-pruning" else "search.nopath-both.no-route-in-graph")
         | false, some r =>
           s := bump s "search.nopath-but-model-routes"
           s := { s with divs := s!"step {s.stepNo}: connector {h.conn}: the library's A* search from {showP (ofPt (g.pt h.src))} to {showP (ofPt (g.pt h.tar))} found no path, the model of the search (clean makepath.cpp; end-point list {endPts.map (fun p => showP (ofPt p))} from the model's pin state) returns {showR r} on the same graph" :: s.divs }
@@ -613,7 +660,9 @@ def checkEnds (s : St) : St := Id.run do
     let judged := s.lastFailed.filter (·.conn == c)
     if judged.isEmpty then s := bump s "nopath.search-not-modelled"
     else if judged.all (·.modelRoute.isNone) then s := bump s "nopath.model-agrees"
-    if let some r := judged.findSome? (·.modelRoute) then
+    if let some why := judged.findSome? (·.modelOffers) then
+      s := { s with fails := s!"[no-path-but-model-offers-pin] step {s.stepNo}: connector {c}: route() is the no-path fallback {((lookup s.cur.routes c).getD []).map showP} although free pins exist: {why} (a pin is offered iff it has the class and is non-exclusive or has no user)" :: s.fails }
+    else if let some r := judged.findSome? (·.modelRoute) then
       -- never the known class no-path: the search as coded in the unchanged library finds a route on the very graph
       -- the library searched (end-point list from the model's pin state)
       s := { s with fails := s!"[no-path-but-model-routes] step {s.stepNo}: connector {c}: route() is the no-path fallback {((lookup s.cur.routes c).getD []).map showP} although free pins exist, and the model of libavoid's A* search (clean makepath.cpp, end-point list of the turn pruning computed from the model's pin state: a pin is a candidate iff it is non-exclusive or has no user) finds the route {r.map showP} on the graph the library searched" :: s.fails }
@@ -755,11 +804,6 @@ def checkOthers (s : St) : St := Id.run do
     | _, _ => pure ()
   return s
 
-def showEnd : EndK → String
-  | .pin sh cls => s!"(shape {sh}, class {cls})"
-  | .junc j => s!"junction {j}"
-  | .free p => s!"point {showP p}"
-
 def sameEnd : EndK → EndK → Bool
   | .pin a b, .pin c d => a == c && b == d
   | .junc a, .junc b => a == b
@@ -851,14 +895,12 @@ def feed (s : St) (l : Array String) : St :=
     let plen := nat! l[9]!
     let pv := int! l[5]!
     let h : SearchHdr := ⟨nat! l[1]!, nat! l[2]!, nat! l[3]!, nat! l[4]!, if pv < 0 then none else some pv.toNat, nat! l[6]!, nat! l[7]!,
-      l[8]! == "1", (List.range plen).map (fun i => nat! l[10 + i]!)⟩
+      l[8]! == "1", (List.range plen).map (fun i => nat! l[10 + i]!), none⟩
     { s with sev := s.sev.push (.search h none) }
   | "sisolated" =>
     -- a failed search from a source without enabled edges / to a target without edges: the model's loop ends at once
-    let h : SearchHdr := ⟨nat! l[1]!, 0, 0, 0, none, 0, 0, false, []⟩
-    if nat! l[2]! == 0 || nat! l[3]! == 0 then
-      { (bump s "search.isolated-end") with sev := s.sev.push (.search h none), sres := s.sres ++ [⟨h.conn, false, none⟩] }
-    else s
+    let h : SearchHdr := ⟨nat! l[1]!, 0, 0, 0, none, 0, 0, false, [], some (nat! l[2]! == 0 && l.getD 4 "0" == "1", nat! l[3]! == 0 && l.getD 5 "0" == "1")⟩
+    if nat! l[2]! == 0 || nat! l[3]! == 0 then { (bump s "search.isolated-end") with sev := s.sev.push (.search h none) } else s
   | "sgx" => { s with sgx := (l.extract 1 l.size).map rat! }
   | "sgy" => { s with sgy := (l.extract 1 l.size).map rat! }
   | "sgf" => { s with sgf := (l.extract 1 l.size).map nat! }
@@ -950,7 +992,7 @@ def checkCase (strict : List String) (c : Case) : CaseResult := Id.run do
   -- failures outside every finding class rank above the gated "[class] …" ones, so that a known
   -- defect met earlier in the case cannot mask them
   let fs := s.fails.reverse
-  let gatedMsg (m : String) : Bool := m.startsWith "[" && !m.startsWith "[no-path-but-model-routes]"
+  let gatedMsg (m : String) : Bool := m.startsWith "[" && !m.startsWith "[no-path-but-model-"
   match (fs.filter (fun m => !gatedMsg m)) ++ (fs.filter gatedMsg), s.divs.reverse with
   | f :: _, _ => return { verdict := .specfail f, nontrivial := s.nontrivial, stats := stats }
   | [], d :: _ => return { verdict := .diverge d, nontrivial := s.nontrivial, stats := stats }
